@@ -28,6 +28,7 @@ RULE = ('cf: reference dates 1900-2100 in every spelling the parser lists '
         'units (standard calendar). only decodings that RETURN are judged. '
         'evaluations = decode calls; distinct = digest of the spec.')
 RULE += (' Also: flags at uneven spacing (index-list selection) decoded with bounds; a re-dated file (TFLAG edited in place) synthesised a second time; IOAPI files opened from disk, bounds on.')
+RULE += (' A share of the gridded files is the IOAPI-class object the CAMx gridded READER (uamiv) returns for an image written by the independent codec (whole-hour steps up to 168 h, ETFLAG present, header completed by the class).')
 ASSUMPTIONS = [
     'cftime 1.6.5 is an independent, correct implementation of CF time for '
     'the calendars used (years 1900-2100, so Julian/Gregorian mixing is not '
@@ -140,12 +141,17 @@ def gen(rng, idx, tier, seed):
                 'dtype': dtype, 'disk': bool(idx % 7 == 1),
                 'bounds': str(rng.choice(['off', 'off', 'derived',
                                           'explicit']))}
-    fs = gen_ioapi.gen_spec(rng, via='from_arrays')
+    # one file in seven is what the gridded CAMx reader returns for an image
+    # of the independent codec (its flags come from the binary time records)
+    fs = gen_ioapi.gen_spec(rng, via='uamiv' if idx % 7 == 5
+                            else 'from_arrays')
     if rng.random() < 0.4:
-        fs['tstep'] = int(rng.choice([1, 100, 1500, 10000, 60000, 240000,
-                                      int(rng.integers(1, 24)) * 10000,
-                                      250000, 480000, 1003015, 1680000,
-                                      7200000]))
+        fs['tstep'] = int(rng.choice(
+            [10000, 60000, 240000, int(rng.integers(1, 24)) * 10000,
+             250000, 480000, 1680000] if fs['via'] == 'uamiv' else
+            [1, 100, 1500, 10000, 60000, 240000,
+             int(rng.integers(1, 24)) * 10000,
+             250000, 480000, 1003015, 1680000, 7200000]))
     return {'mode': ['tflag', 'synth'][m - 3], 'file': fs,
             'drop_tflag': bool(rng.random() < 0.3),
             'disk': bool(rng.random() < 0.3),
@@ -311,6 +317,8 @@ def run_ioapi_in(spec, res, d, h):
     from PseudoNetCDF.conventions.ioapi._ioapi import add_time_variables
     fs = spec['file']
     f = gen_ioapi.build(fs)
+    if fs.get('via') == 'uamiv':
+        res.facet('source:camx-reader')
     if spec.get('disk') and spec['mode'] == 'tflag' and \
             not spec['drop_tflag']:
         # the IOAPI file saved and opened again from disk
@@ -332,7 +340,8 @@ def run_ioapi_in(spec, res, d, h):
             problems.append('TFLAG[%d] = %s, integer calendar says (%d, %d)'
                             % (i, tf[i, 0].tolist(), d, t))
             break
-    if spec['drop_tflag']:
+    if spec['drop_tflag'] and fs.get('via') != 'uamiv':
+        # (a reader's file always has its time flags)
         del f.variables['TFLAG']
         facets.append('no-tflag-variable')
     try:
